@@ -111,7 +111,7 @@ def mk_doc(ctx: Ctx, allow: set[str]):
                                                  "p_multi_media": 0.0 if "multi_request_media" not in allow else 0.5,
                                                  "opid_shapes": True, "ntags": 3,
                                                  "p_errors": 0.6, "p_error_stream": 0.35,
-                                                 "p_multi_response_media": 0.2, "json_media_variants": True, "p_nullable_response": 0.2, "p_component_refs": 0.3})
+                                                 "p_multi_response_media": 0.2, "json_media_variants": True, "p_nullable_response": 0.2, "p_component_refs": 0.3, "p_range_2xx": 0.08})
     # tag spelling variants: rewrite some tags
     if rng.random() < 0.4:
         for path, item in d.doc["paths"].items():
